@@ -51,3 +51,46 @@ Proof.
   destruct (Nat.ltb_spec (length pw) 256) as [P2|P2]; cbn; [|reflexivity].
   change (1 <? 256)%N with true. cbn. rewrite app_nil_r. reflexivity.
 Qed.
+
+(* ---- the reply side ---- *)
+Local Arguments N.eqb : simpl never.
+Local Arguments nth0 : simpl never.
+Local Arguments mem : simpl never.
+Local Arguments auth_methods : simpl never.
+Local Arguments auth_bytes : simpl never.
+Local Arguments destination_bytes : simpl never.
+
+Ltac by_cases :=
+  cbv delta [s4_granted s5_version s5_auth_version s5_atyps s5_connect_prefix request_connection start5]; cbn;
+  repeat match goal with
+         | |- context [if ?b then _ else _] => destruct b; cbn
+         | |- context [match ?b with true => _ | false => _ end] => destruct b; cbn
+         end; try reflexivity.
+
+(* each state method reads as many bytes as the model says and decides as the model says *)
+Theorem socks4_first_response_generated : forall c d,
+  run_reply socks4_first_response_code c d = RAct (decide c S4First d) (Some (need S4First)).
+Proof. intros c d. unfold run_reply. cbn. by_cases. Qed.
+
+Theorem socks5_start_generated : forall c, c_proto c = P5 ->
+  run_reply socks5_start_code c [] = RAct (decide c Start []) None.
+Proof. intros c H. unfold run_reply. cbn. rewrite H. reflexivity. Qed.
+
+Theorem socks5_first_response_generated : forall c d,
+  run_reply socks5_first_response_code c d = RAct (decide c S5First d) (Some (need S5First)).
+Proof. intros c d. unfold run_reply. cbn. by_cases. Qed.
+
+Theorem socks5_auth_response_generated : forall c d,
+  run_reply socks5_auth_response_code c d = RAct (decide c S5Auth d) (Some (need S5Auth)).
+Proof. intros c d. unfold run_reply. cbn. by_cases. Qed.
+
+Theorem socks5_connect_response_generated : forall c d,
+  run_reply socks5_connect_response_code c d = RAct (decide c S5Conn d) (Some (need S5Conn)).
+Proof. intros c d. unfold run_reply. cbn. by_cases. Qed.
+
+Theorem socks5_connect_response_rest_generated : forall c n d,
+  run_rest c n d = RAct (decide c (S5Rest n) d) (Some (need (S5Rest n))).
+Proof. intros c n d. unfold run_rest. cbn. reflexivity. Qed.
+
+Lemma reply_known : socks4a_inherits_first_response = true.
+Proof. reflexivity. Qed.
